@@ -94,8 +94,15 @@ theorem writeBigInt_is_bits (v : Int) (n : Nat) (hn : 1 ≤ n) (hlo : -(2 : Int)
   writeBigInt_eq v n hn hlo hhi
 
 /-- `WriteUnary(n)` writes `n` ones and a zero (both the `< 63` fast path and the loop). -/
-theorem writeUnary_is_bits (n : Nat) : writeUnary n = writeBitArray (List.replicate n true ++ [false]) :=
-  writeUnary_eq n
+theorem writeUnary_is_bits (n : Nat) (hn : n < 2 ^ 63) :
+    writeUnary n = writeBitArray (List.replicate n true ++ [false]) :=
+  writeUnary_eq n hn
+
+/-- Limit (witness, replayed on Go: corpus/C06/defects.ops): `WriteUnary(n)` takes a `uint`; for `n ≥ 2^63` the loop
+bound `int(n)` is negative, no one is written, and the call succeeds after writing a single 0 — the encoding of 0. -/
+theorem writeUnary_huge_witness :
+    (writeUnary (2 ^ 63) (BitString.new 8)).1 = .ok () ∧ abs (writeUnary (2 ^ 63) (BitString.new 8)).2 = [false] := by
+  decide +kernel
 
 /-- `minBitsRequired_eq`: the de Bruijn multiplication and table lookup equals the bit length for every uint64. -/
 theorem minBitsRequired_eq (v : Nat) (hv : v < 2 ^ 64) : minBitsRequired v = Ideal.bitLength v :=
